@@ -14,6 +14,24 @@ extern crate rustc_middle;
 extern crate rustc_span;
 
 mod json;
+
+/// Path of a definition as rules match it. rustc prints the *visible* path, which for an item of another crate may run
+/// through a re-export of a third crate (`wasm_bindgen::__rt::core::panicking::assert_failed`); such a path is replaced
+/// by the definition's own path so that callee patterns (`core::panicking::`) cannot be dodged by a re-export.
+pub fn dpath(tcx: rustc_middle::ty::TyCtxt<'_>, d: rustc_hir::def_id::DefId) -> String {
+    let s = tcx.def_path_str(d);
+    if d.is_local() || s.starts_with('<') {
+        return s;
+    }
+    let krate = tcx.crate_name(d.krate).to_string();
+    let first = s.split("::").next().unwrap_or("");
+    let std_family = |k: &str| k == "std" || k == "core" || k == "alloc";
+    if first == krate || (std_family(first) && std_family(&krate)) {
+        return s;
+    }
+    rustc_middle::ty::print::with_no_visible_paths!(tcx.def_path_str(d))
+}
+
 mod hirx;
 mod mirx;
 
